@@ -1708,6 +1708,14 @@ def install(w):
             return mk_err(Agg("struct", "RecvError", []))
         raise Unsupported("std mpsc recv would block forever")
 
+    def std_recv_timeout(w, it, a, c):
+        ch = deref(it, a[0]).ch
+        if ch.q:
+            return mk_ok(ch.q.pop(0))
+        if not ch.tx_alive:
+            return mk_err(mk_enum("RecvTimeoutError", "Disconnected"))
+        return mk_err(mk_enum("RecvTimeoutError", "Timeout"))
+    B["std::sync::mpsc::Receiver::recv_timeout"] = std_recv_timeout
     B["std::sync::mpsc::channel"] = std_channel
     B["std::sync::mpsc::Receiver::recv"] = std_recv
 
